@@ -30,6 +30,8 @@ META['C14'] = {'engine': 'lifecycle', 'level_text': "rapid campaigns over pairs 
 
 META['C10'] = {'engine': 'probes', 'level_text': "rapid campaigns: legality predicate over probe parameters, a step-by-step health/stop/relaunch model under injected probe outcomes, and the real prober against a scripted HTTP target; exploration", 'level_note': LIFE_NOTE + "; part (2) injects probe outcomes through the probe-result hook, part (3) runs the unmodified prober in real time", 'technique': "property-based testing (rapid): validity predicate + model-based checking of probe outcome sequences"}
 
+META['C19'] = {'engine': 'rest', 'level_text': "rapid campaigns over request sequences against an in-process server: three-way differential (REST, direct call, bundled client) for reads, outcome-class and post-state checks for writes, status-class predicate for invalid requests; exploration", 'level_note': LIFE_NOTE, 'technique': "property-based testing (rapid): request sequences, differential REST vs direct call vs client + status predicate"}
+
 NOT_APPLICABLE = {}
 
 ENGINES = [
@@ -37,6 +39,8 @@ ENGINES = [
      "kind_free_text": "rapid stateful generation driving app.ProjectRunner through a fake commander (build tag verif); trace oracles in harness/oracle"},
     {"name": "logbuf", "path": "harness/logbuf", "serves_properties": ['C18'],
      "kind_free_text": "rapid + exhaustive enumeration over pclog.ProcessLogBuffer and the websocket log stream"},
+    {"name": "rest", "path": "harness/rest", "serves_properties": ['C19'],
+     "kind_free_text": "rapid request sequences against httptest + api.InitRoutes over a live runner, with client.PcClient"},
     {"name": "probes", "path": "harness/probes", "serves_properties": ['C10'],
      "kind_free_text": "rapid campaigns over health.Probe / health.Prober and, in harness/lifecycle, injected probe outcomes"},
     {"name": "loadeng", "path": "harness/loadeng", "serves_properties": ['C07', 'C15', 'C16', 'C17'],
